@@ -80,7 +80,7 @@ ClassModel(
         "_sentinel": "object",
         "sm": "StateMachine",
     },
-    methods={"put": C(BASE + "put"), "_initial_transition": C(BASE + "_initial_transition")},
+    methods={"put": C(BASE + "put"), "_initial_transition": C(BASE + "_initial_transition"), "start": C(BASE + "start")},
 )
 ClassModel(
     "SyncEngine",
@@ -475,6 +475,7 @@ def env_effect(s0, s, glog_grows_by=None):
         "env:rtc-no-trigger": z3.Implies(rl, z3.And(
             s.g("ntrig") == s0.g("ntrig"), s.g("trig_log") == s0.g("trig_log"),
             s.g("trig_res") == s0.g("trig_res"), s.g("st") == s0.g("st"), s.g("ac") == s0.g("ac"))),
+        "env:sent-log-append-only": z3.And(qt(s) >= qt(s0), prefix_kept(qarr(s0), qarr(s), qt(s0), "esl")),
         "env:nonrtc-balanced": z3.Implies(z3.Not(rtc(s0)), z3.And(
             qt(s) - qh(s) == qt(s0) - qh(s0), qh(s) >= qh(s0), qt(s) >= qt(s0), qh(s) <= qt(s))),
         "env:nonrtc-old-rows-kept": z3.Implies(z3.Not(rtc(s0)), z3.And(
